@@ -75,7 +75,9 @@ def unit_escape_pairs(a):
     chars = [chr(i) for i in range(1, 0x250) if chr(i) not in "\n\r"] + list("\u2028\u3000\uff5c\uff3c\U0001F600")
     # rows that mean something in OTHER table syntaxes (Markdown separator rows, reST borders) are plain rows here
     sweep(stats, ({"sub": "row", "row": r, "doc": True} for r in ["| - |", "| --- | --- |", "| :-: |", "|-|", "| - | x |", "|---|---|", "| -- | :-: |", "| :-- | --: |", "| = | = |", "|===|", "| + | + |", "|:|",
-                                                                 "| - | - | - |", "| -|- |", "|--", "| --- |---"]), check_row)
+                                                                 "| - | - | - |", "| -|- |", "|--", "| --- |---",
+                                                                 # markup that means a line break / an entity elsewhere is plain text in a cell
+                                                                 "| a<br>b |", "| <br/> |", "| x <BR /> y | <br> |", "| a<br>0 |", "| &lt;br&gt; | &#124; | &nbsp; |", "| <p>x</p> |", "| \\<br> |"]), check_row)
     sweep(stats, ({"sub": "row", "row": ctxt % ("\\" + c), "doc": True} for c in chars for ctxt in ("| %s |", "|%s|", "| C:%semp | b |", "| a%s", "| \\%s |")), check_row)
     return stats
 
@@ -253,6 +255,31 @@ def check_shape(case, stats):
                 raise Violation(case, "ragged table with counts %r: errors %r, expected %r (stop=%s)" % (counts, r[1], exp, stop))
 
 
+SAME_LENGTH_TABLES = [["| name  | value |", "| a | b | c     |"], ["| a | b | c     |", "| name  | value |"], ["| ab | cd |", "| a|b| cd |"], ["| ab | cd |", "|  a | b| |"],
+                      ["| name  | value |", "| a     | b     |", "| a | b | c     |"], ["|a|b|", "|a||", "||b|", "|ab||"[:5]], ["| x  | y  |", "| x | y |  "], ["| 1 | 2 | 3 |", "| 1 | 2   3 |"],
+                      ["| a | b |", "| a | b |", "| a|| b |"], ["|  a  |  b  |", "| a | b |  |"]]
+
+
+def check_same_length(case, stats):
+    """rows of EQUAL LENGTH with their pipes at other places: each row is split on its own (no layout is carried over from the row above);
+    a table whose rows have different cell counts is rejected at the first deviating row"""
+    rows = case["rows"]
+    text = "Feature: f\n Scenario: s\n  Given t\n" + "".join("   " + r + "\n" for r in rows)
+    counts = [len(ref_row(r + "\n")) for r in rows]
+    stats.case(text, True, sample=case)
+    r = gh.parse(text)
+    bad = next((i for i, n in enumerate(counts) if n != counts[0]), None)
+    if bad is None:
+        want = [[t for t, _ in ref_row(rw + "\n")] for rw in rows]
+        got = [[c["value"] for c in x["cells"]] for x in r[1]["feature"]["children"][0]["scenario"]["steps"][0]["dataTable"]["rows"]] if r[0] == "ok" else r[1][:2]
+        if got != want:
+            raise Violation(case, "table with rows %r: cells %r, expected %r" % (rows, got, want))
+    else:
+        exp = [(4 + bad, 4, "(%d:4): %s" % (4 + bad, RAGGED))]
+        if r[0] == "ok" or r[1] != exp:
+            raise Violation(case, "rows %r have %r cells: %r, expected %r" % (rows, counts, "accepted" if r[0] == "ok" else r[1], exp))
+
+
 def check_two_tables(case, stats):
     """several ragged tables in one document: each is reported (at its own first deviating row)"""
     k = case["tables"]
@@ -272,6 +299,7 @@ def unit_shape(a):
     stats = Stats()
     if a["shard"] == 0:
         sweep(stats, [{"sub": "two-tables", "tables": k} for k in (1, 2, 3, 5, 11, 12)], check_two_tables)
+        sweep(stats, [{"sub": "same-length", "rows": r} for r in SAME_LENGTH_TABLES], check_same_length)
     hyp(stats, st_shape(), check_shape, a["n"], shard_seed(a["seed"], a["shard"], 3))
     return stats
 
@@ -330,6 +358,8 @@ def unit_wide(a):
 def replay(case, stats):
     if case.get("sub") == "two-tables":
         return check_two_tables(case, stats)
+    if case.get("sub") == "same-length":
+        return check_same_length(case, stats)
     return {"row": check_row, "roundtrip": check_roundtrip, "shape": check_shape, "concurrent": check_concurrent}[case["sub"]](case, stats)
 
 
